@@ -447,6 +447,10 @@ const (
 	// the whole GPOS table of the font is dropped by the loader (PairPos2 class count check, see
 	// C05-pairpos2-class-count): none of the unsafe-to-break flags GPOS would set exist
 	fGposDropped = "C18-pairpos2-class-count"
+	// the 'rand' feature (random alternates) flags the whole buffer unsafe-to-break, but
+	// applySubsAlternate sets the flag on Buffer.Info only: the glyphs this lookup has already
+	// moved to the out-buffer (a separate slice in the port, the same memory upstream) lose it
+	fRand = "C18-rand-feature-unsafe-to-break"
 )
 
 func firstLastRange(r rune) bool {
@@ -758,6 +762,12 @@ func checkCase(t ev.TB, fe *fontEntry, c *Case, survey func(check string, f fail
 		if markOffsetsOnly(fe, whole, recon) && ev.Known(fMarkCache) {
 			ev.Excluded(fMarkCache)
 			return
+		}
+		for _, ft := range fe.feats {
+			if ft == "rand" && ev.Known(fRand) {
+				ev.Excluded(fRand)
+				return
+			}
 		}
 		fail("cut", recon, cuts, "shaping the pieces cut at safe boundaries does not reproduce the whole-text shaping")
 	}
